@@ -12,8 +12,8 @@ variable {S : Type} [Cost S] [Inhabited S]
 
 /-- For every boundary index `j`: the minimal and maximal cost over all segmentations of the
     prefix ending there (`none` if the prefix cannot be segmented). -/
-def dpTable (tok : Bytes → Option (Id × S)) (piece : Bytes) (bounds : Array Nat) : Array (Option (S × S)) := Id.run do
-  let mut tab : Array (Option (S × S)) := #[some (Cost.zero, Cost.zero)]
+def dpTableFrom (base : S) (tok : Bytes → Option (Id × S)) (piece : Bytes) (bounds : Array Nat) : Array (Option (S × S)) := Id.run do
+  let mut tab : Array (Option (S × S)) := #[some (base, base)]
   for j in [1:bounds.size] do
     let mut best : Option (S × S) := none
     for i in [0:j] do
@@ -30,6 +30,9 @@ def dpTable (tok : Bytes → Option (Id × S)) (piece : Bytes) (bounds : Array N
             | some (a, b) => some (if Cost.le lo' a then lo' else a, if Cost.le b hi' then hi' else b)
     tab := tab.push best
   return tab
+
+def dpTable (tok : Bytes → Option (Id × S)) (piece : Bytes) (bounds : Array Nat) : Array (Option (S × S)) :=
+  dpTableFrom Cost.zero tok piece bounds
 
 inductive UniVerdict where
   | holds
@@ -71,21 +74,40 @@ def uniCheck (c : UniCtx S) (bytesOf : Id → Option Bytes) (piece : Bytes) (ids
     | some .unknown, some u =>
       let endsHere (e : Nat) : Bool := bounds.any fun s => s < e && (c.tok (slice piece s e)).isSome
       let nextBound (pos : Nat) : Nat := (bounds.toList.find? (· > pos)).getD piece.length
-      let rec walkU (fuel pos : Nat) : List Id → Bool
-        | [] => pos == piece.length
+      -- a maximal run of vocabulary tokens between two unknown ids (or the piece's ends) must itself be a
+      -- cheapest segmentation of the text it covers, measured from the value the run starts with: zero at the
+      -- beginning of the piece, the restart value after an unreachable position (`unigram_stretch_optimal`;
+      -- "encodable neighbours are unaffected", C06)
+      let stretchOk (a b : Nat) (cst : S) : Bool :=
+        if a == b then true else
+        let sub := slice piece a b
+        let sb := (charStarts sub ++ [sub.length]).toArray
+        match (dpTableFrom (if a == 0 then Cost.zero else Cost.big) c.tok sub sb)[sb.size - 1]! with
+        | some (opt, _) => Cost.le cst opt
+        | none => false
+      let rec walkU (fuel pos start : Nat) (acc : S) : List Id → Option String
+        | [] => if pos != piece.length then some "walkU" else if stretchOk start pos acc then none else some "stretch-after-unknown-not-optimal"
         | t :: ts =>
           match fuel with
-          | 0 => false
+          | 0 => some "walkU"
           | fuel + 1 =>
             if t == u then
               let e := nextBound pos
-              bounds.contains pos && !endsHere e && walkU fuel e ts
+              if !(bounds.contains pos && !endsHere e) then some "walkU"
+              else if !stretchOk start pos acc then some "stretch-before-unknown-not-optimal"
+              else walkU fuel e e Cost.big ts
             else
               match bytesOf t with
-              | some b => !b.isEmpty && (c.tok b).isSome && slice piece pos (pos + b.length) == b &&
-                  bounds.contains (pos + b.length) && walkU fuel (pos + b.length) ts
-              | none => false
-      if walkU (ids.length + 1) 0 ids then .holds else .fails "walkU"
+              | some b =>
+                (match c.tok b with
+                 | some (_, sc) =>
+                   if !b.isEmpty && slice piece pos (pos + b.length) == b && bounds.contains (pos + b.length)
+                   then walkU fuel (pos + b.length) start (Cost.sub acc sc) ts else some "walkU"
+                 | none => some "walkU")
+              | none => some "walkU"
+      match walkU (ids.length + 1) 0 0 Cost.zero ids with
+      | none => .holds
+      | some why => .fails why
     | _, _ => .notApplicable "no unknown fallback"
 
 end Kitoken.Spec
